@@ -42,6 +42,28 @@ def arity(m):
     return req, len(pos), {x.arg for x in a.kwonlyargs} | set(pos)
 
 
+def unalias(m, node):
+    """copy of `node` in which the module-level names bound once to a construction without arguments (`_NULL = Null()`:
+    a grammar terminal built once instead of per call; terminals are compared by equality) are that construction"""
+    import copy
+
+    binds = {}
+    for st in m.mod.tree.body:
+        if isinstance(st, ast.Assign) and len(st.targets) == 1 and isinstance(st.targets[0], ast.Name):
+            binds.setdefault(st.targets[0].id, []).append(st)
+    alias = {k: v[0].value for k, v in binds.items() if len(v) == 1 and isinstance(v[0].value, ast.Call) and isinstance(v[0].value.func, ast.Name) and not v[0].value.args and not v[0].value.keywords}
+    if not alias:
+        return node
+
+    class S(ast.NodeTransformer):
+        def visit_Name(self, n):
+            if isinstance(n.ctx, ast.Load) and n.id in alias:
+                return ast.copy_location(copy.deepcopy(alias[n.id]), n)
+            return n
+
+    return S().visit(copy.deepcopy(node))
+
+
 def advanced(m):
     """grammar terminals a JSON codec method advances over: ['Int'], ['String', 'MapKeyMarker'], ..."""
     out = []
@@ -49,6 +71,11 @@ def advanced(m):
     for n in walk_local(m.node):
         if isinstance(n, ast.Call) and norm(n.func) == "self._parser.advance" and n.args and isinstance(n.args[0], ast.Call):
             out.append((order[id(n)], norm(n.args[0].func)))
+        elif isinstance(n, ast.Call) and norm(n.func) == "self._parser.advance" and n.args and isinstance(n.args[0], ast.Name):
+            # a module-level instance of the terminal, built once (`_INT = Int()`)
+            binds = [st for st in m.mod.tree.body if isinstance(st, ast.Assign) and len(st.targets) == 1 and isinstance(st.targets[0], ast.Name) and st.targets[0].id == n.args[0].id]
+            if len(binds) == 1 and isinstance(binds[0].value, ast.Call) and not binds[0].value.args and not binds[0].value.keywords:
+                out.append((order[id(n)], norm(binds[0].value.func)))
     return [x for _, x in sorted(out)]
 
 
@@ -81,7 +108,7 @@ def run(ctx):
             continue
         aw, ar = advanced(mw), advanced(mr)
         ctx.check("C15.R2", f"{w} / {r} advance {aw}", aw == ar and bool(aw), mr.where(), f"{w} advances {aw}, {r} advances {ar}", "encoder and decoder walk the grammar differently for the same Avro kind: the parser stacks desynchronise")
-    ok = all(any("MapKeyMarker" in norm(n) for n in walk_local(m.node)) for m in (encJ.methods["write_utf8"], decJ.methods["read_utf8"]))
+    ok = all("MapKeyMarker" in norm(unalias(m, m.node)) for m in (encJ.methods["write_utf8"], decJ.methods["read_utf8"]))
     ctx.check("C15.R2", "map keys: both write_utf8 and read_utf8 treat a String followed by MapKeyMarker as an object key", ok, decJ.methods["read_utf8"].where(), "MapKeyMarker handling", "map keys are not handled symmetrically")
     ie, ia = advanced(encJ.methods["end_item"]), advanced(decJ.methods["iter_array"])
     if not ia and not any(isinstance(n, (ast.Yield, ast.YieldFrom)) for n in walk_local(decJ.methods["iter_array"].node)):
@@ -145,7 +172,7 @@ def run(ctx):
     # ---- R6 union wrapping ------------------------------------------------------------------------------------
     ctx.rule("C15.R6", "union: encoder wraps non-null values under the branch label, decoder maps None <-> 'null' and unwraps a single-key object; labels are names / type names", floor=3)
     wi = encJ.methods["write_index"]
-    tests = [n for n in walk_local(wi.node) if isinstance(n, ast.If)]
+    tests = [n for n in walk_local(unalias(wi, wi.node)) if isinstance(n, ast.If)]
     symw = "symbol"
     ok = len(tests) == 1 and len(conjuncts(tests[0].test)) == 2 and "self._write_union_type" in conjuncts(tests[0].test) and bool(ne_texts(symw, "Null()") & conjuncts(tests[0].test)) and any("write_object_key(alternative_symbol.get_label(index))" in norm(s) for s in tests[0].body) and any("write_object_start" in norm(s) for s in tests[0].body) and any("UnionEnd" in norm(s) for s in tests[0].body)
     ctx.check("C15.R6", "encoder: non-null branch -> {label: value}; null stays null", ok, wi.where(), f"write_index: {norm(tests[0].test) if tests else ''}", "union values must be wrapped as {branch name: value} except null")
